@@ -34,6 +34,15 @@ def main(argv=None):
     args = ap.parse_args(argv)
 
     from harness import lean
+    # every scratch file of a run (forked workers and subprocesses included) lives under one directory
+    # that is removed when the run ends: pool workers do not run atexit handlers
+    import shutil
+    import tempfile
+    scratch = None
+    if args.cmd in ('check', 'replay'):
+        scratch = tempfile.mkdtemp(prefix='mrm-run-')
+        os.environ['TMPDIR'] = scratch
+        tempfile.tempdir = scratch
     try:
         if args.cmd == 'setup':
             ok, secs, out = lean.lake_build()
@@ -65,6 +74,9 @@ def main(argv=None):
         traceback.print_exc()
         print('INFRASTRUCTURE FAILURE: unexpected exception in the harness')
         return 2
+    finally:
+        if scratch:
+            shutil.rmtree(scratch, ignore_errors=True)
     return 2
 
 
